@@ -2,7 +2,7 @@
 import re
 
 from ..core import AnchorError, Undecided
-from ..hirq import callee_path, decode_fmt_template, fmt_calls, walk
+from ..hirq import callee_path, decode_fmt_template, fmt_calls, res_path, walk
 from ..patset import CHAR_DOMAIN, Char, Evaluator, char_set
 from ..tables import local_of, strip_expr
 
@@ -31,11 +31,28 @@ def rule_escinv(prog, rep):
     evp = Evaluator(prog, "apollo_parser")
     fn = prog.fn(r"^apollo_compiler::ast::serialize::serialize_string_value$")
     body = prog.hir_body(fn)["body"]
-    finds = [n for n in walk(body) if n.get("k") == "mcall" and n["m"] == "find" and n["args"] and strip_expr(n["args"][0]).get("k") == "closure"]
+    # the predicate given to `str.find`: a closure literal, a local bound to one, or a local fn
+    from ..hirx import Scope
+    sc = Scope(prog.hir_body(fn))
+    finds = []
+    for n in walk(body):
+        if n.get("k") == "mcall" and n["m"] == "find" and n["args"]:
+            a = strip_expr(n["args"][0])
+            if a.get("k") == "path" and a.get("res") and a["res"][0] == "local":
+                let = sc.lets.get(sc.canon(a["res"][2]))
+                if let is not None and let.get("init") is not None:
+                    a = strip_expr(let["init"])
+            if a.get("k") == "closure":
+                finds.append(("closure", a))
+            elif a.get("k") == "path" and a.get("res") and a["res"][0] == "def":
+                finds.append(("fn", res_path(a["res"])))
     if len(finds) != 1:
-        raise Undecided("serialize_string_value: expected one `str.find(|c| ..)` (found %d)" % len(finds))
-    clo = strip_expr(finds[0]["args"][0])
-    escaped = set(int(c) for c in CHAR_DOMAIN if ev.eval_closure(clo, [c]) is True)
+        raise Undecided("serialize_string_value: expected one `str.find(<char predicate>)` (found %d)" % len(finds))
+    if finds[0][0] == "closure":
+        clo = finds[0][1]
+        escaped = set(int(c) for c in CHAR_DOMAIN if ev.eval_closure(clo, [c]) is True)
+    else:
+        escaped = set(int(c) for c in CHAR_DOMAIN if ev.call(finds[0][1], [c]) is True)
     # (1) what the lexer cannot take raw inside a quoted string
     must = {0x22, 0x5C} | char_set(evp, "apollo_parser::lexer::is_line_terminator")
     missing = must - escaped
